@@ -64,6 +64,11 @@ func VfC10Switch() {
 	s := &Switch{instance: &vfInst{id: &m.Address{PublicAddress: m.PublicAddress{IP: own}}, p: p}, routerInput: make(chan frame.Frame, 4)}
 	ttl0 := f.TTL()
 
+	// what one rotation step of C12's kernel does to a copy of the block
+	ref := make([]byte, blockLen)
+	copy(ref, f.SwitchBlock())
+	refNext, refErr := m.NextRotateSwitchBlock(ref, recv.Label)
+
 	err = s.handleFrame(f)
 
 	sent := len(out.Sent) + len(out.Prio) + len(recv.Sent) + len(recv.Prio)
@@ -85,6 +90,20 @@ func VfC10Switch() {
 		vf.Assert(sent == 0 || out.SendErr != nil, "error-after-forwarding")
 		vf.Reach("error")
 	}
+	// a frame with a switch block is forwarded or handed up only after exactly one rotation with the
+	// label of the link it arrived on: forwarded by the label the rotation yields, handed up iff that
+	// label is zero, and the block it carries on is the rotated block (else the return path is lost)
+	if blockLen > 0 && f.SrcIP() != own && sent+esc == 1 {
+		vf.Assert(refErr == nil, "frame-with-unrotatable-switch-block-passed-on")
+		vf.Assert((esc == 1) == (refNext == 0), "escalation-does-not-follow-the-rotated-label")
+		if sent == 1 {
+			vf.Assert(len(out.Sent)+len(out.Prio) == vfB2i(refNext == out.Label) && len(recv.Sent)+len(recv.Prio) == vfB2i(refNext == recv.Label), "forwarded-over-another-link-than-the-label-names")
+		}
+		k := vf.Int()
+		vf.Assume(k >= 0 && k < blockLen)
+		vf.Assert(f.SwitchBlock()[k] == ref[k], "switch-block-not-rotated-before-passing-the-frame-on")
+		vf.Reach("rotated")
+	}
 	q := vf.Int()
 	vf.Assume(q >= 0 && q < n)
 	if q != 1 && q != 2 && !(q >= 49 && q < 49+blockLen) {
@@ -93,4 +112,11 @@ func VfC10Switch() {
 	if q == 2 && sent == 0 {
 		vf.Assert(data[q] == orig[q], "flow-flags-changed-without-forwarding")
 	}
+}
+
+func vfB2i(b bool) int {
+	if b {
+		return 1
+	}
+	return 0
 }
